@@ -2,6 +2,7 @@ package main
 
 import (
 	"fmt"
+	"go/ast"
 	"go/types"
 	"os"
 	"sort"
@@ -11,48 +12,84 @@ import (
 	"verif/internal/load"
 	"verif/internal/mem"
 	"verif/internal/rep"
+	"verif/internal/ssau"
 )
 
 func init() { register("C08", "other", checkC08) }
 
-// siblingGroups: files of which exactly one must be selected per configuration.
-var siblingGroups = []struct {
-	pkg      string
-	a, b     string // a: 64-bit / asm / unsafe variant, b: the other
-	selector func(c load.Config) bool
-	what     string
-}{
-	{"internal/curve25519", "curve25519_donna_64bit.go", "curve25519_donna_32bit.go", func(c load.Config) bool { return !c.Limb32 }, "field limb layout"},
-	{"internal/modm", "modm_64bit.go", "modm_32bit.go", func(c load.Config) bool { return !c.Limb32 }, "scalar limb layout"},
-	{"internal/ge25519", "tables_64bit.go", "tables_32bit.go", func(c load.Config) bool { return !c.Limb32 }, "constant tables"},
-	{"internal/ge25519", "scalarmult_base_choose_niels_amd64.go", "scalarmult_base_choose_niels_ref.go", func(c load.Config) bool { return c.AsmSel }, "table selector"},
-	{"internal/ge25519", "movecond_unsafe.go", "movecond_slow.go", func(c load.Config) bool { return c.UnsafeMov }, "conditional move"},
-}
-
-// ruleConfigSelection (K1): each configuration selects exactly the expected member of every sibling group.
+// ruleConfigSelection (K1): each configuration selects the variant its GOARCH / tags call for, judged by what the selected
+// code IS (limb counts, presence of the assembly stub, use of unsafe in the conditional move) and not by file names, so
+// renaming or splitting the tagged files changes nothing. (Two variants or none selected is a type-check error, i.e. a
+// load failure.)
 func ruleConfigSelection(r *rep.Report, p *load.Program) {
 	cfg := p.Cfg.Name
-	for _, g := range siblingGroups {
-		files := p.Files[load.ModPath+"/"+g.pkg]
-		has := func(n string) bool {
-			for _, f := range files {
-				if strings.HasSuffix(f, "/"+n) {
-					return true
+	arrLen := func(pkgSuffix, typeName string) int64 {
+		pkg := p.Pkg(pkgSuffix)
+		if pkg == nil {
+			return -1
+		}
+		o := pkg.Types.Scope().Lookup(typeName)
+		if o == nil {
+			return -1
+		}
+		if at, ok := o.Type().Underlying().(*types.Array); ok {
+			return at.Len()
+		}
+		return -1
+	}
+	sel := func(ok bool, what, got, want string) {
+		r.Check(ok, "K1-selection", cfg, what+": the variant this configuration calls for is compiled", "", got, fmt.Sprintf("%s: selected %s, expected %s (build constraints of the variants disagree with the configuration)", what, got, want))
+	}
+	field := arrLen("internal/curve25519", "Bignum25519")
+	wantField := int64(5)
+	if p.Cfg.Limb32 {
+		wantField = 10
+	}
+	sel(field == wantField, "field limb layout", fmt.Sprintf("%d limbs", field), fmt.Sprintf("%d limbs", wantField))
+	scal := arrLen("internal/modm", "Bignum256")
+	wantScal := int64(5)
+	if p.Cfg.Limb32 {
+		wantScal = 9
+	}
+	sel(scal == wantScal, "scalar limb layout", fmt.Sprintf("%d limbs", scal), fmt.Sprintf("%d limbs", wantScal))
+	// the assembly selector works on 5x51 limbs: it must be present exactly where the matrix expects it
+	asm := ssau.Func(p, "internal/ge25519", "scalarmultBaseChooseNielsAMD64") != nil
+	hasS := false
+	for _, f := range p.Files[load.ModPath+"/internal/ge25519"] {
+		if strings.HasSuffix(f, ".s") {
+			hasS = true
+		}
+	}
+	sel(asm == p.Cfg.AsmSel, "table selector", map[bool]string{true: "assembly stub declared", false: "reference selector only"}[asm], map[bool]string{true: "assembly", false: "reference"}[p.Cfg.AsmSel])
+	if p.Cfg.AsmSel {
+		sel(hasS, "table selector", "no assembly source among the package's files", "the .s file")
+	}
+	// the conditional move: the variant that reinterprets memory through unsafe, or the subtle one
+	usesUnsafe, found := false, false
+	if pkg := p.Pkg("internal/ge25519"); pkg != nil {
+		for _, file := range pkg.Syntax {
+			has := false
+			for _, d := range file.Decls {
+				if fd, ok := d.(*ast.FuncDecl); ok && fd.Name.Name == "moveConditionalBytes" && fd.Recv == nil {
+					has = true
 				}
 			}
-			return false
+			if !has {
+				continue
+			}
+			found = true
+			for _, imp := range file.Imports {
+				if imp.Path.Value == "\"unsafe\"" {
+					usesUnsafe = true
+				}
+			}
 		}
-		ha, hb := has(g.a), has(g.b)
-		wantA := g.selector(p.Cfg)
-		ok := ha != hb && ha == wantA
-		sel := g.b
-		if ha {
-			sel = g.a
-		}
-		r.Check(ok, "K1-selection", cfg, g.what+": exactly the expected sibling file is compiled", g.pkg, sel,
-			fmt.Sprintf("%s: selected {%s:%v %s:%v}, expected %s only (build constraints of the siblings disagree)", g.what, g.a, ha, g.b, hb, map[bool]string{true: g.a, false: g.b}[wantA]))
 	}
-	// the layout that the three layout-dependent packages selected must agree with each other (types)
+	if found {
+		sel(usesUnsafe == p.Cfg.UnsafeMov, "conditional move", map[bool]string{true: "unsafe word moves", false: "crypto/subtle"}[usesUnsafe], map[bool]string{true: "unsafe word moves", false: "crypto/subtle"}[p.Cfg.UnsafeMov])
+	} else {
+		r.Fail("K1-selection", cfg, "conditional move: moveConditionalBytes is defined", "", "k1:cmov", "moveConditionalBytes not found in internal/ge25519")
+	}
 	r.Count("files", len(p.Files[load.ModPath+"/internal/ge25519"]))
 }
 
